@@ -28,22 +28,23 @@ LEVEL = {
 TECH = ("static analysis: repository-specific AST / CFG / call-graph / effect / table / template rules (csa), plus bounded partial evaluation of pure leaf "
         "functions by the checker's own whitelist AST evaluator over finite symbolic input families (nothing from the repository is imported or executed)")
 FOLDS = {
- "C01": "the four scalar codec families through all protocol slots, LEB128, the bit buffer, the interpreted structure reader / writer",
- "C02": "the scalar codecs, LEB128, the bit buffer, the interpreted structure reader / writer",
- "C03": "the omission test of the generated unpack line",
- "C04": "the layout calculators, _make_array, len(T), the interpreted structure reader / writer",
- "C05": "the scalar codec families (five byte-order characters), LEB128",
- "C06": "the bit buffer, the layout calculator, the interpreted structure reader / writer",
- "C07": "_make_array, BaseArray._read / _write, the array slots of the scalar codecs",
- "C08": "the reading slots of the scalar codecs, StructureMetaType.__call__, BaseArray",
- "C09": "_is_eof, LEB128, StructureMetaType.__call__, Pointer.dereference, the interpreted structure reader / writer",
+ "C01": "the four scalar codec families through all protocol slots, LEB128, the bit buffer, the interpreted structure reader / writer, the compiled reader (source generator interpreted, then the generated text), BaseArray incl. two-dimensional writes, the union writer",
+ "C02": "the scalar codecs, LEB128, the bit buffer, the interpreted structure reader / writer, the compiled reader, CharArray / WcharArray writers, the union writer",
+ "C03": "the compiled reader (compiler.compile interpreted on 40 000 field-kind cases, the generated source interpreted over a stream model) and the interpreted reader, both against one reference",
+ "C04": "the layout calculators, _make_array, len(T), the interpreted structure reader / writer, positions and consumed size of the compiled reader",
+ "C05": "the scalar codec families (five byte-order characters), LEB128, char / wchar incl. their array writers",
+ "C06": "the bit buffer, the layout calculator, the interpreted structure reader / writer, the compiled reader on sequences with bit-fields",
+ "C07": "_make_array, BaseArray._read / _write, the generic _read_array, the array slots of the scalar codecs, the compiled reader on sequences with arrays",
+ "C08": "the reading slots of the scalar codecs, StructureMetaType.__call__, MetaType.__call__, BaseArray, truncated images in the compiled reader",
+ "C09": "_is_eof / the generic _read_array, LEB128, the call forms (MetaType / Structure / Union __call__), the input predicates, Pointer.dereference, the interpreted structure reader / writer, the layout calculator",
  "C10": "Expression._mark_unary_minus (bounded-exhaustive over token lists), a computed precedence table",
- "C11": "the union layout calculator, UnionMetaType.__call__",
- "C12": "the enum / flag numbering statements, Enum.__eq__ / Flag.__eq__",
- "C13": "cstruct.resolve over alias tables",
- "C16": "Pointer.dereference, the null-terminated readers of char / wchar",
- "C17": "the generated-method patchers for every field count (bytecode layout), one default object per field",
- "C18": "StructureMetaType.__call__",
+ "C11": "the union layout calculator, UnionMetaType.__call__, the union writer, StructureMetaType.__call__",
+ "C12": "the enum / flag numbering statements, Enum.__eq__ / Flag.__eq__, the bit buffer reader, the compiled reader on sequences with enums",
+ "C13": "cstruct.resolve over alias tables, cstruct.__getattr__, the comment replacer, add_type",
+ "C16": "Pointer.dereference, the null-terminated readers of char / wchar, the default-pointer expression, the compiled reader on sequences with pointers",
+ "C17": "the generated-method patchers for every field count (bytecode layout), one default object per field, MetaType.__call__, the bit buffer writer, BaseArray",
+ "C18": "StructureMetaType.__call__, _update_fields, add_field",
+ "C20": "the stub generator (generate_cstruct_stub interpreted on a model cstruct object, the text parsed and compared with the model), cstruct.__getattr__, cstruct.resolve",
 }
 
 NA = {
